@@ -125,3 +125,39 @@ func (h *Harness) histories(shapes []Shape, deep []int) {
 		}
 	}
 }
+
+// ---- where the defn itself sits: inside a let, inside another function, inside a loop, after
+// a same-arity redefinition in the same text.  Each returns 0 at every depth. ----
+
+type PlaceShape struct{ Name, Fmt string }
+
+var PlaceShapes = []PlaceShape{
+	{"defn-in-let", "(let [z 1] (defn g [n] (cond (== n 0) 0 (g (- n 1)))) (g %d))"},
+	{"defn-in-function", "(defn outer [d] (defn g [n] (cond (== n 0) 0 (g (- n 1)))) (g d)) (outer %d)"},
+	{"defn-in-function-closing-over-parameter", "(defn outer [d k] (defn g [n] (cond (== n 0) (- k k) (let [q k] (g (- n 1))))) (g d)) (outer %d 7)"},
+	{"defn-in-for", "(def r 9) (for [(def i 0) (< i 2) (set i (+ i 1))] (defn g [n] (cond (== n 0) 0 (g (- n 1)))) (set r (g %d))) r"},
+	{"redefined-same-text-other-arity", "(defn g [n] (+ n 1)) (defn g [n acc] (cond (== n 0) acc (g (- n 1) acc))) (g %d 0)"},
+	{"defn-in-newscope", "(newScope (defn g [n] (cond (== n 0) 0 (and true (g (- n 1))))) (g %d))"},
+}
+
+func (h *Harness) places(deep []int) {
+	for _, p := range PlaceShapes {
+		src10 := fmt.Sprintf(p.Fmt, 10)
+		obs10, hw10 := h.measure(src10, budgetFor(10))
+		for _, d := range deep {
+			src := fmt.Sprintf(p.Fmt, d)
+			obs, mk := h.measure(src, budgetFor(d))
+			h.counts["place-runs"]++
+			h.out.Dist["place-shape"]++
+			if obs != obs10 || obs != "V:I0|T:" {
+				h.fail(Failure{Kind: "place-value", Shape: "place:" + p.Name, Depth: d, Source: src, Impl: obs, Expected: "V:I0|T: (depth 10: " + obs10 + ")", Size: 25})
+			}
+			if mk != hw10 {
+				h.fail(Failure{Kind: "place-space", Shape: "place:" + p.Name, Depth: d, Source: src,
+					Impl: "high-water marks data,scope,addr,loop = " + mk.String(), Expected: "as at depth 10 = " + hw10.String(),
+					Note: "the self tail call of a defn in this place is not a jump: the stacks grow with the depth", Size: 25})
+			}
+			h.counts["space-comparisons"]++
+		}
+	}
+}
